@@ -45,10 +45,11 @@ ASSUMPTIONS = [
 ]
 MIN_EVENTS = {
     'quick': {'cut_runs': 1800, 'cuts_before_completion': 1200, 'table_checks': 1800, 'leftover_checks': 1800,
-              'link_table_checks': 100, 'links_tracked': 150, 'link_disconnection_event_checks': 120, 'side_waiters': 100},
+              'link_table_checks': 100, 'links_tracked': 150, 'link_disconnection_event_checks': 120, 'side_waiters': 100,
+              'real_transport_losses_observed': 6},
     'thorough': {'cut_runs': 3000, 'cuts_before_completion': 1200, 'table_checks': 3000, 'leftover_checks': 3000,
                  'link_table_checks': 100, 'links_tracked': 150, 'link_disconnection_event_checks': 120,
-                 'side_waiters': 100},
+                 'side_waiters': 100, 'real_transport_losses_observed': 12},
 }
 CASE_TIMEOUT = 900
 EXHAUSTIVE_NOTE = 'thorough tier: every HCI message index of every listed procedure x 4 cut kinds'
@@ -59,6 +60,8 @@ PROCS = ['gatt-read', 'gatt-long-read', 'gatt-write', 'gatt-discover', 'gatt-sub
 # procedures on links that ride on an ACL connection: CIS (LE isochronous) and SCO/eSCO (BR/EDR synchronous)
 ISO_PROCS = ['cis-establish', 'cis-idle', 'cis-iso-stream', 'cis-disconnect', 'sco-establish', 'sco-idle', 'sco-disconnect']
 PROCS += ISO_PROCS
+# the same procedure with the link made the other way round (the GATT server is the link central)
+PROCS += ['gatt-subscribe-rev', 'gatt-indicate-rev', 'coc-drain-rev']
 CUTS = ['disc-initiator', 'disc-responder', 'lost-initiator', 'lost-responder']
 
 
@@ -73,6 +76,11 @@ def plan(tier, seed):
             for part in range(parts):
                 cases.append({'kind': 'cut', 'proc': p, 'cut': c, 'seed': sd, 'part': part, 'parts': parts,
                               'max_points': 150 if tier == 'quick' else 10 ** 6})
+    for tr_ in ('tcp-client', 'unix-client'):
+        for how in ('eof', 'reset'):
+            for warm in ((0, 2) if tier == 'quick' else (0, 1, 2, 5)):
+                cases.append({'kind': 'real-transport', 'transport': tr_, 'how': how, 'warm': warm,
+                              'seed': seed * 1000003 + 2000 + len(cases)})
     for tr in ('le', 'bredr'):
         for how in ('disc-initiator', 'disc-responder', 'lost'):
             for k in range(2):
@@ -173,7 +181,10 @@ async def build_iso(case, proc, ctx):
 
 # -----------------------------------------------------------------------------
 async def build(case, proc):
-    """Returns ctx dict with rig, conns, op factory."""
+    """Returns ctx dict with rig, conns, op factory. A procedure name ending in -rev runs over a link made the other
+    way round (device 0, which starts the procedure, is the link PERIPHERAL; the GATT server sits on the link central)."""
+    rev = proc.endswith('-rev')
+    proc = proc.removesuffix('-rev')
     from bumble import l2cap, gatt
     from bumble.device import Peer
     from bumble.pairing import PairingConfig, PairingDelegate
@@ -203,6 +214,8 @@ async def build(case, proc):
     await rg.power_on()
     if classic:
         c0, c1 = await rg.connect_classic(0, 1)
+    elif rev:
+        c1, c0 = await rg.connect_le(1, 0)
     else:
         c0, c1 = await rg.connect_le(0, 1)
     ctx['c0'], ctx['c1'] = c0, c1
@@ -252,6 +265,7 @@ async def build(case, proc):
 
 def make_op(ctx, proc):
     from bumble import l2cap, hci
+    proc = proc.removesuffix('-rev')
     rg, c0, c1 = ctx['rg'], ctx['c0'], ctx['c1']
     d0, d1 = rg.devices
 
@@ -538,7 +552,7 @@ async def scenario(case, r, proc, cut, cut_at):
         r.ev('cuts_before_completion')
     key = f'{proc}/{cut}'
     r.ev('oracle_evals')
-    waiter_dev = 1 if proc == 'gatt-indicate' else 0
+    waiter_dev = 1 if proc.removesuffix('-rev') == 'gatt-indicate' else 0
     if outcome.startswith('hang'):
         if not task.done():
             task.cancel()
@@ -653,9 +667,124 @@ async def stale_object(case, r: R):
     r.sample = {'kind': 'stale-object', 'transport': case['transport'], 'how': how}
 
 
+async def real_transport(case, r: R):
+    """The loss of a REAL stream transport (tcp-client, unix-client) as the transports announce it: the far end
+    closes the socket in an orderly way (EOF) or abruptly (reset) while one HCI command is outstanding and another
+    waits for the command slot. Counted events, not time, decide: once asyncio has told the transport that the
+    connection is lost, both callers must be released within 200 loop turns."""
+    import os, shutil, socket, struct, tempfile
+    from bumble import hci
+    from bumble.host import Host
+    kind, how = case['transport'], case['how']
+    rng = random.Random(case['seed'])
+    got = {'bytes': 0, 'writer': None}
+    ev_cmd = asyncio.Event()
+
+    async def serve(reader, writer):
+        got['writer'] = writer
+        answered = 0
+        while True:
+            data = await reader.read(4096)
+            if not data:
+                return
+            got['bytes'] += len(data)
+            # answer the first `warm` commands (so that the host has seen traffic), then go silent
+            while answered < case['warm'] and got['bytes'] >= 4 * (answered + 1):
+                writer.write(bytes([4, 0x0E, 4, 1, 0x09, 0x10, 0]))    # Command Complete, Read_BD_ADDR, status 0 (short)
+                answered += 1
+            if got['bytes'] >= 4 * (case['warm'] + 1):
+                ev_cmd.set()
+
+    tmp = None
+    if kind == 'tcp-client':
+        from bumble.transport.tcp_client import open_tcp_client_transport
+        server = await asyncio.start_server(serve, '127.0.0.1', 0)
+        port = server.sockets[0].getsockname()[1]
+        transport = await open_tcp_client_transport(f'127.0.0.1:{port}')
+    else:
+        from bumble.transport.unix import open_unix_client_transport
+        tmp = tempfile.mkdtemp(prefix='c16-')
+        path = os.path.join(tmp, 'hci.sock')
+        server = await asyncio.start_unix_server(serve, path)
+        transport = await open_unix_client_transport(path)
+    try:
+        src = transport.source
+        lost = []
+        inner = src.connection_lost
+
+        def connection_lost(exc):
+            lost.append(exc)
+            return inner(exc)
+        src.connection_lost = connection_lost
+        host = Host(transport.source, transport.sink)
+        for _ in range(case['warm']):
+            try:
+                await asyncio.wait_for(host.send_command(hci.HCI_Read_BD_ADDR_Command()), 20)
+            except Exception:
+                pass
+        a = asyncio.ensure_future(host.send_command(hci.HCI_Read_BD_ADDR_Command()))
+        b = asyncio.ensure_future(host.send_command(hci.HCI_Read_Local_Name_Command()))
+        try:
+            await asyncio.wait_for(ev_cmd.wait(), 20)
+        except asyncio.TimeoutError:
+            r.ev('real_transport_harness_timeouts')
+            return
+        w = got['writer']
+        if how == 'eof':
+            w.close()
+        else:
+            sock = w.get_extra_info('socket')
+            if kind == 'tcp-client':
+                sock.setsockopt(socket.SOL_SOCKET, socket.SO_LINGER, struct.pack('ii', 1, 0))
+            w.transport.abort()
+        for _ in range(3000):
+            if lost:
+                break
+            await asyncio.sleep(0.01)
+        if not lost:
+            r.ev('real_transport_harness_timeouts')
+            return
+        r.ev('real_transport_losses_observed')
+        r.ev('real_transport_lost_with_' + ('exception' if lost[0] is not None else 'eof'))
+        for _ in range(200):
+            if a.done() and b.done():
+                break
+            await asyncio.sleep(0)
+        r.ev('oracle_evals')
+        for name, t in (('outstanding', a), ('queued', b)):
+            if not t.done():
+                r.bad(f'waiter/hang/real-transport/{kind}/{how}/{name}-command',
+                      f'asyncio reported connection_lost({lost[0]!r}) to the {kind} transport, yet the {name} HCI command is '
+                      f'still pending 200 loop turns later')
+                t.cancel()
+            elif t.exception() is None:
+                r.bad(f'waiter/completed-without-transport/{kind}/{how}/{name}-command', f'{name} command returned {t.result()!r}')
+        # a command issued after the loss fails at once as well
+        try:
+            await asyncio.wait_for(host.send_command(hci.HCI_Read_BD_ADDR_Command()), 5)
+            r.bad(f'waiter/completed-without-transport/{kind}/{how}/later-command', 'a command sent after the loss returned')
+        except asyncio.TimeoutError:
+            r.bad(f'waiter/hang/real-transport/{kind}/{how}/later-command', 'a command sent after the loss never ends')
+        except Exception:
+            pass
+        r.sig('real-transport', kind, how, case['warm'])
+        r.evals()
+        r.sample = {'kind': 'real-transport', 'transport': kind, 'how': how, 'connection_lost_argument': repr(lost[0])}
+    finally:
+        try:
+            await transport.close()
+        except Exception:
+            pass
+        server.close()
+        if tmp:
+            shutil.rmtree(tmp, ignore_errors=True)
+
+
 def run_case(case, r: R):
     if case.get('kind') == 'stale':
         return stale_object(case, r)
+    if case.get('kind') == 'real-transport':
+        return asyncio.run(real_transport(case, r))
     proc, cut = case['proc'], case['cut']
     try:
         n, _ = vloop.run(scenario(case, R({}), proc, cut, None))
